@@ -639,8 +639,7 @@ func monC18(hr *HistRun) string {
 					touch(a, eff, o.Now)
 				}
 			case o.Kind == "setmeta" && o.IsAcc:
-				isRevert = true // like reverts, a metadata write on an existing account is an event that never lowers first usage
-				touch(o.TgtAcc, o.Now, o.Now)
+				touch(o.TgtAcc, o.Now, o.Now) // a metadata write is a usage at the time of the write (UpsertAccounts: missing first_usage = transaction_date())
 			}
 		}
 		if len(want) != len(s.Accounts) {
@@ -659,7 +658,7 @@ func monC18(hr *HistRun) string {
 			if a.First != w.first {
 				tag := ""
 				if a.First == w.firstNoRevert {
-					tag = "[revert-before-first-usage] " // the only events earlier than the recorded first usage are revert transactions / metadata writes on the existing account
+					tag = "[revert-before-first-usage] " // the only events earlier than the recorded first usage are revert transactions
 				}
 				return fmt.Sprintf("%saccount %s first usage %d, earliest effective event %d", tag, a.Addr, a.First, w.first)
 			}
